@@ -53,7 +53,9 @@ type world struct {
 	ecs   map[uint32]ecStatic
 	dts   []string
 	sess  map[string]*topology.DataNode // open heartbeat streams: node name -> dn
+	zomb  map[string]*topology.DataNode // streams the server has abandoned but the master still holds
 	vids  []uint32                      // every id that is looked up after each step
+	pickDcs []string                    // data center wishes tried with PickForWrite after each step ("" = none)
 }
 
 func rec(v interface{}) tr.Ev {
@@ -63,7 +65,7 @@ func rec(v interface{}) tr.Ev {
 
 func newWorld(r tr.Ev) *world {
 	w := &world{nodes: map[string]nodeStatic{}, vols: map[uint32]volStatic{}, ecs: map[uint32]ecStatic{},
-		sess: map[string]*topology.DataNode{}}
+		sess: map[string]*topology.DataNode{}, zomb: map[string]*topology.DataNode{}}
 	w.limit = uint64(tr.I(r, "limit"))
 	w.topo = topology.NewTopology("topo", sequence.NewMemorySequencer(), w.limit, 5, tr.B(r, "min"))
 	for _, x := range tr.List(r["nodes"]) {
@@ -95,6 +97,7 @@ func newWorld(r tr.Ev) *world {
 	}
 	sort.Slice(w.vids, func(i, j int) bool { return w.vids[i] < w.vids[j] })
 	w.dts = tr.Strs(r["types"])
+	w.pickDcs = tr.Strs(r["wishes"])
 	return w
 }
 
@@ -163,6 +166,13 @@ func (w *world) ecMsgs(v interface{}) (res []*master_pb.VolumeEcShardInformation
 func (w *world) step(e tr.Ev) {
 	name := tr.S(e, "n")
 	switch tr.S(e, "ev") {
+	case "reopen": // the server dials again and sends its first full heartbeat while the master still serves the old stream
+		if w.sess[name] == nil || w.zomb[name] != nil {
+			fatal("reopen needs one open stream (%s)", name)
+		}
+		w.zomb[name] = w.sess[name]
+		delete(w.sess, name)
+		fallthrough
 	case "full": // a full volume heartbeat (Store.CollectHeartbeat); opens the stream if need be
 		ns, ok := w.nodes[name]
 		if !ok {
@@ -222,6 +232,12 @@ func (w *world) step(e tr.Ev) {
 		w.receive(name, &master_pb.Heartbeat{NewEcShards: w.ecMsgs(e["newec"]), DeletedEcShards: w.ecMsgs(e["delec"])})
 	case "close":
 		w.closeStream(name)
+	case "zclose": // the handler of the abandoned stream returns: its deferred UnRegisterDataNode
+		if w.zomb[name] == nil {
+			fatal("zclose without an abandoned stream (%s)", name)
+		}
+		w.topo.UnRegisterDataNode(w.zomb[name])
+		delete(w.zomb, name)
 	case "collect": // what CollectDeadNodeAndFullVolumes + the chanFullVolumes consumer do for full volumes
 		for _, dc := range w.topo.Children() {
 			for _, rack := range dc.Children() {
@@ -376,7 +392,53 @@ func (w *world) snap() tr.Ev {
 		}
 	}
 	sort.Ints(wr)
-	return tr.Ev{"ev": "snap", "tree": tree, "lv": lv, "vols": vols, "ecs": ecs, "look": look, "wr": wr}
+	// PickForWrite is asked last and guarded on its own: if it panics the rest of the snapshot is still a valid observation
+	picks := []interface{}{}
+	pp := tr.Guard(func() { picks = w.picks() }) != ""
+	if pp {
+		picks = []interface{}{}
+	}
+	return tr.Ev{"ev": "snap", "tree": tree, "lv": lv, "vols": vols, "ecs": ecs, "look": look, "wr": wr, "picks": picks, "pp": pp}
+}
+
+// picks asks the master for a volume to write to (Topology.PickForWrite), once per volume class of the
+// configuration (collection, replication, ttl, disk type) without and with a data center wish.
+func (w *world) picks() []interface{} {
+	res := []interface{}{}
+	type class struct {
+		col, rp, disk string
+		ttl           uint32
+	}
+	seen := map[class]bool{}
+	var ids []uint32
+	for id := range w.vols {
+		ids = append(ids, id)
+	}
+	sort.Slice(ids, func(i, j int) bool { return ids[i] < ids[j] })
+	for _, id := range ids {
+		v := w.vols[id]
+		c := class{v.col, v.rp.String(), v.disk, v.ttl}
+		if seen[c] {
+			continue
+		}
+		seen[c] = true
+		for _, dc := range w.pickDcs {
+			opt := &topology.VolumeGrowOption{Collection: v.col, ReplicaPlacement: v.rp, Ttl: needle.LoadTTLFromUint32(v.ttl),
+				DiskType: types.ToDiskType(v.disk), DataCenter: dc}
+			fid, _, dn, err := w.topo.PickForWrite(1, opt)
+			e := tr.Ev{"cls": int(id), "dc": dc, "err": err != nil, "vid": 0, "node": ""}
+			if err == nil {
+				f, perr := needle.ParseFileIdFromString(fid)
+				if perr != nil {
+					fatal("PickForWrite returned an unparsable file id %q", fid)
+				}
+				e["vid"] = int(f.VolumeId)
+				e["node"] = nodeName(string(dn.Id()))
+			}
+			res = append(res, e)
+		}
+	}
+	return res
 }
 
 var realStderr = os.Stderr
